@@ -546,7 +546,14 @@ func (e *Eng) funcVal(fn *ssa.Function, bindings []*Val) *Val {
 	name := "fn_" + sanitize(fnKey(fn))
 	e.sc.declConst(name, "Int")
 	e.sc.declare(name+"_nz", fmt.Sprintf("(assert (not (= %s 0)))", name))
-	return &Val{T: name, Typ: fn.Type(), Clo: &Closure{Fn: fn, Bindings: bindings}, KnownLen: -1}
+	clo := &Closure{Fn: fn, Bindings: bindings}
+	if len(bindings) == 0 {
+		if e.cloByTerm == nil {
+			e.cloByTerm = map[string]*Closure{}
+		}
+		e.cloByTerm[name] = clo
+	}
+	return &Val{T: name, Typ: fn.Type(), Clo: clo, KnownLen: -1}
 }
 
 func (e *Eng) constVal(c *ssa.Const) *Val {
@@ -881,7 +888,12 @@ func (e *Eng) execInstr(fr *Frame, b *ssa.BasicBlock, ins ssa.Instruction, st *S
 			bs = append(bs, e.valOf(fr, st, bv))
 		}
 		ref := e.alloc(st, "closure")
-		fr.vals[x] = &Val{T: ref, Typ: x.Type(), Clo: &Closure{Fn: fn, Bindings: bs}, KnownLen: -1}
+		clo := &Closure{Fn: fn, Bindings: bs}
+		if e.cloByTerm == nil {
+			e.cloByTerm = map[string]*Closure{}
+		}
+		e.cloByTerm[ref] = clo
+		fr.vals[x] = &Val{T: ref, Typ: x.Type(), Clo: clo, KnownLen: -1}
 	case *ssa.MapUpdate:
 		m := e.valOf(fr, st, x.Map)
 		k := e.valOf(fr, st, x.Key)
@@ -1174,6 +1186,10 @@ func (e *Eng) execUnOp(fr *Frame, x *ssa.UnOp, st *State, g string, def func(ssa
 		}
 		t := e.load(st, l)
 		v := def(x, e.sortOf(x.Type()), t)
+		if c, ok := e.cloByTerm[t]; ok {
+			// a function value read back from a cell that provably holds this very function / closure
+			v.Clo = c
+		}
 		e.assumeWF(st, g, v)
 	case token.NOT:
 		def(x, "Bool", not(src.T))
